@@ -2,6 +2,7 @@
 #include "v_harness.h"
 #include "automata_contracts.h"
 #include "lltdAutomata.c"
+#include "v_nocheck_push.h"      /* harness and specification code below: no implicit checks */
 
 #ifndef FR_CAP
 #define FR_CAP 1476            /* 36 + 6 * 240: the property's quantifier range */
